@@ -50,7 +50,7 @@ def supervisor(chk):
     fi = slots.supervisor(prog)
     name = fi.qual
     close = find_close_all(prog)
-    CLOSE = ("attr", SELF, close.name)
+    CLOSE = ("attr", SELF, close.name) if close.cls is not None else ("glob", close.qual)
     ok = True
     for label in ("AnyException", "OtherBase", "KeyboardInterrupt", "asyncio.CancelledError"):
         e = REPRESENTATIVES[label]
@@ -94,10 +94,23 @@ def supervisor(chk):
     # ---- O2.2 close-all ---------------------------------------------------------------------
     rule = "O2.2"
     name = close.qual
-    outs = Interp(prog, close, unroll=2).run()
+    RUNNERS = ("attr", SELF, slots.runners_map(prog))
+    close_env = None
+    tasks_param = close.params()[0] if close.params() else None
+    if close.cls is None:
+        # a module-level close-all is handed the runner mapping and the tasks: read its parameters as the caller's terms
+        close_env = {}
+        for n in ast.walk(fi.node):
+            if isinstance(n, ast.Call) and prog.resolve(fi.module, n.func) == close.qual:
+                for pname, a in zip(close.params(), n.args):
+                    d = util.dotted(a) or ""
+                    if d.startswith("self.") and d.count(".") == 1:
+                        close_env[("sym", pname)] = ("attr", SELF, d.split(".")[1])
+                    else:
+                        tasks_param = pname
+    outs = Interp(prog, close, unroll=2).run(env=close_env) if close_env else Interp(prog, close, unroll=2).run()
     chk.count(len(outs))
     ok = True
-    RUNNERS = ("attr", SELF, slots.runners_map(prog))
     for o in outs:
         if o.kind not in ("normal", "return"):
             continue
@@ -134,7 +147,7 @@ def supervisor(chk):
         if joins[-1][1][1][1] == ("glob", "ext:asyncio.wait") and "return_when" in jkw and jkw["return_when"] != ("glob", "ext:asyncio.ALL_COMPLETED"):
             chk.bad(rule, name, "the final join is asyncio.wait(..., return_when=%s): it does not wait for all runner tasks" % show(jkw["return_when"]), node=close.node, stmt="join-first-completed")
             ok = False
-        param = ("sym", close.params()[0]) if close.params() else None
+        param = ("sym", tasks_param) if tasks_param else None
         if not any(a == ("star", param) or a == param for a in jargs):
             chk.bad(rule, name, "the final join waits for %s instead of all runner tasks" % [show(a) for a in jargs], node=close.node, stmt="join-args")
             ok = False
@@ -161,7 +174,7 @@ def mapping_cleared(chk, rule):
                 return [("value", ("sym", "results"))] if label is None else [("raise", REPRESENTATIVES[label])]
             return None
 
-        for o in Interp(prog, sup, call_hook=hook, unroll=1, inline=lambda f, ct: f.cls is sup.cls and f.qual == close.qual).run():
+        for o in Interp(prog, sup, call_hook=hook, unroll=1, inline=lambda f, ct: f.qual == close.qual).run():
             chk.count()
             if o.kind == "cut":
                 continue
@@ -332,20 +345,13 @@ def trio_runner(chk):
     rule = "O2.4"
     ok = True
     # the function run by trio.run and the one that calls trio.run
-    entry = blocking = None
-    for fis in cls.methods.values():
-        for fi in fis:
-            for n in ast.walk(fi.node):
-                if isinstance(n, ast.Call) and prog.resolve(fi.module, n.func) == "ext:trio.run" and n.args:
-                    blocking = fi
-                    d = util.dotted(n.args[0])
-                    if d and d.startswith("self."):
-                        entry = prog.lookup_method(cls, d.split(".")[1])
-    if entry is None or blocking is None:
+    ts = common.trio_structure(prog, cls)
+    if ts is None:
         chk.undecided(rule, cls.qual, "trio.run(self.<entry>) not found", node=cls.node)
         return
+    entry, blocking, form = ts["entry"], ts["start_fn"], ts["form"]
     # (b) after the receive loop, the nursery scope is cancelled while still inside the async with
-    outs = Interp(prog, entry, unroll=1).run()
+    outs = Interp(prog, entry, unroll=1, inline=lambda f, ct: f.cls is cls and f.name in ts["owned"] and f is not entry).run()
     chk.count(len(outs))
     for o in outs:
         if o.kind not in ("normal", "return"):
@@ -411,8 +417,9 @@ def trio_runner(chk):
                 stmt="private-executor",
             )
             ok = False
-        if len(a) < 2 or a[1] != ("attr", SELF, blocking.name):
-            chk.bad(rule, mp.qual, "the executor does not run %s" % blocking.name, node=mp.node, stmt="executor-target")
+        want_target = [("attr", SELF, blocking.name)] if form == "call" else [("glob", "ext:trio.run"), ("attr", SELF, entry.name)]
+        if list(a[1 : 1 + len(want_target)]) != want_target:
+            chk.bad(rule, mp.qual, "the executor does not run %s" % (blocking.name if form == "call" else "trio.run(self.%s)" % entry.name), node=mp.node, stmt="executor-target")
             ok = False
         if any(e[0] == "raised-at-call" for e in evs):
             acl = [e for e in evs if e[0] == "call" and e[1][1] == ("attr", SELF, "aclose") and e[3]]
@@ -494,6 +501,17 @@ def thread_runner(chk):
             n += 1
             chk.count()
             d = {k.arg: k.value for k in node.keywords}.get("daemon")
+            if d is None:
+                # thread = Thread(...); thread.daemon = True; thread.start()
+                par = util.parents_map(cls.node)
+                up = par.get(id(node))
+                var = up.targets[0].id if isinstance(up, ast.Assign) and len(up.targets) == 1 and isinstance(up.targets[0], ast.Name) else None
+                fn = util.enclosing(par, node, (ast.FunctionDef, ast.AsyncFunctionDef))
+                if var and fn is not None:
+                    sets = [a for a in ast.walk(fn) if isinstance(a, ast.Assign) and len(a.targets) == 1 and isinstance(a.targets[0], ast.Attribute) and a.targets[0].attr == "daemon" and isinstance(a.targets[0].value, ast.Name) and a.targets[0].value.id == var]
+                    starts = [c for c in ast.walk(fn) if isinstance(c, ast.Call) and isinstance(c.func, ast.Attribute) and c.func.attr == "start" and isinstance(c.func.value, ast.Name) and c.func.value.id == var]
+                    if len(sets) == 1 and isinstance(sets[0].value, ast.Constant) and sets[0].value.value is True and starts and all(sets[0].lineno < c.lineno for c in starts) and sets[0] in fn.body and all(any(c in ast.walk(st) for st in fn.body) for c in starts):
+                        d = sets[0].value
             if not (isinstance(d, ast.Constant) and d.value is True):
                 chk.bad(rule, cls.qual, "payload threads are not daemon threads (daemon=%s): a blocked thread payload keeps the process from terminating" % (util.unparse(d) if d is not None else "unset"), node=node, stmt="daemon")
                 ok = False
@@ -544,7 +562,8 @@ def stop_chain(chk):
     bstop = prog.method(BASE, "stop")
     STOPPED = ("attr", ("attr", SELF, slots.stopped_event(prog)), "is_set")
     for stopped in (True, False):
-        outs = Interp(prog, bstop, decide=lambda it, p, t, stopped=stopped: stopped if (t[0] == "call" and t[1] == STOPPED) else None).run()
+        pkg = bstop.module.name.rpartition(".")[0]
+        outs = Interp(prog, bstop, decide=lambda it, p, t, stopped=stopped: stopped if (t[0] == "call" and t[1] == STOPPED) else None, inline=lambda f, ct: not f.is_async and ((f.cls is None and f.module.name.startswith(pkg)) or (f.cls is not None and f.name not in ("aclose", "stop", "run")))).run()
         for o in outs:
             sub = [e[1] for e in o.path.events if e[0] == "call" and e[1][1] == ("glob", "ext:asyncio.run_coroutine_threadsafe")]
             res = [e for e in o.path.events if e[0] == "call" and e[1][1][0] == "attr" and e[1][1][2] == "result"]
